@@ -147,8 +147,8 @@ static inline bool uqueue_push(struct uqueue *uqueue, void *element)
         ueventfd_write(&uqueue->event_push);
     }
 
-    if (unlikely(uatomic_fetch_add(&uqueue->counter, 1) == 0))
-        ueventfd_write(&uqueue->event_pop);
+    uatomic_fetch_add(&uqueue->counter, 1);
+    ueventfd_write(&uqueue->event_pop);
     return true;
 }
 
@@ -173,8 +173,8 @@ static inline void *uqueue_pop_internal(struct uqueue *uqueue)
         ueventfd_write(&uqueue->event_pop);
     }
 
-    if (unlikely(uatomic_fetch_sub(&uqueue->counter, 1) == uqueue->length))
-        ueventfd_write(&uqueue->event_push);
+    uatomic_fetch_sub(&uqueue->counter, 1);
+    ueventfd_write(&uqueue->event_push);
     return element;
 }
 
